@@ -129,7 +129,8 @@ def save_replay(prop, cname, modname, pidx, inputs, detail):
 # ---------------------------------------------------------------- evidence
 
 def write_evidence(prop, tier, seed, wall, coverage, assumptions, violations):
-    d = os.path.join(VERIF, "evidence")
+    # evidence under /verif/evidence only for runs against /repo itself (sweeps on a clone write elsewhere)
+    d = os.path.join(VERIF, "evidence") if REPO == "/repo" else "/tmp/vf-evidence-alt"
     os.makedirs(d, exist_ok=True)
     ev = {
         "property_id": prop,
